@@ -104,8 +104,16 @@ func (c *Ctx) failureStops(fn *ssa.Function, b *ssa.BasicBlock, fns []*ssa.Funct
 			tested := false
 			for _, e := range an.CondEdges(caller) {
 				empty, k := an.EmptinessFact(e.Fact, func(v ssa.Value) bool {
-					cc := an.AllExtractOf(v, idx)
-					return cc != nil && cc == ssa.CallInstruction(vc)
+					// the tested value may merge this call's result with another's (`err = a.store(…)` / `err = a.load(…)`; `if err != nil`)
+					for _, d := range append(an.Defs(v), v) {
+						if d == ssa.Value(vc) {
+							return true
+						}
+						if cc := an.AllExtractOf(d, idx); cc != nil && cc == ssa.CallInstruction(vc) {
+							return true
+						}
+					}
+					return false
 				})
 				if !k || empty {
 					continue
@@ -273,18 +281,38 @@ func runC15(c *Ctx) {
 	for _, fn := range fns {
 		for _, call := range an.CallsIn(fn, func(_ ssa.CallInstruction, ci an.CalleeInfo) bool { return isCacheStringMethod(ci.FullName(), "Get") }) {
 			key := shortFn(topFn(fn)) + "→Cache.Get"
-			w := ""
-			for _, f := range an.Facts(call) {
-				if f.Op != token.EQL {
-					continue
-				}
-				for _, pair := range [][2]ssa.Value{{f.X, f.Y}, {f.Y, f.X}} {
-					s, isStr := an.ConstString(pair[1])
-					a := loadAddr(pair[0])
-					fa, isFA := a.(*ssa.FieldAddr)
-					if isStr && s == "" && isFA && isRawParamsField(fa, "Query") {
-						w = "guard RawParams.Query == \"\""
+			queryEmptyAt := func(at ssa.Instruction) bool {
+				for _, f := range an.Facts(at) {
+					if f.Op != token.EQL {
+						continue
 					}
+					for _, pair := range [][2]ssa.Value{{f.X, f.Y}, {f.Y, f.X}} {
+						s, isStr := an.ConstString(pair[1])
+						a := loadAddr(pair[0])
+						fa, isFA := a.(*ssa.FieldAddr)
+						if isStr && s == "" && isFA && isRawParamsField(fa, "Query") {
+							return true
+						}
+					}
+				}
+				return false
+			}
+			w := ""
+			if queryEmptyAt(call) {
+				w = "guard RawParams.Query == \"\""
+			} else if top := topFn(fn); top == fn && top.Object() != nil && !top.Object().Exported() {
+				// the lookup sits in an unexported helper (`a.loadQuery(ctx, hash, rawParams)`): every call site is on the Query == "" edge
+				sites, all := 0, true
+				for _, caller := range fns {
+					for _, cs := range an.CallsIn(caller, func(_ ssa.CallInstruction, ci an.CalleeInfo) bool { return ci.Static == top }) {
+						sites++
+						if _, sync := cs.(*ssa.Call); !sync || !queryEmptyAt(cs) {
+							all = false
+						}
+					}
+				}
+				if sites > 0 && all {
+					w = sprintf("every call site of %s is guarded by RawParams.Query == \"\"", top.Name())
 				}
 			}
 			c.R.Check(w != "", key, c.ipos(call), w, "the persisted-query cache is consulted although the request carries query text: the executed text would not be the one sent")
